@@ -1,0 +1,176 @@
+//! Read-only views and forwarding wrappers for the verification harness
+//! (cargo feature `verif-hooks`).
+use super::alloc::HostCluster;
+use super::*;
+use crate::error::Qcow2Result;
+use crate::meta::{Table, TableEntry};
+use crate::verif::{VerifGeometry, VerifHostSplit, VerifSlice, VerifState};
+use std::sync::atomic::Ordering;
+
+fn table_bytes<B: Table>(t: &B) -> Vec<u8> {
+    unsafe { std::slice::from_raw_parts(t.as_ptr(), t.byte_size()) }.to_vec()
+}
+
+fn dump_cache<B: Table>(
+    cache: &AsyncLruCache<usize, AsyncRwLock<B>>,
+    contended: &mut bool,
+) -> (Vec<VerifSlice>, usize) {
+    let (entries, wlen) = cache.verif_entries();
+    let v = entries
+        .into_iter()
+        .map(|(key, e, lru, users)| {
+            // the clone made by verif_entries() itself is not a user
+            let users = users - 1;
+            let dirty = e.is_dirty();
+            match e.value().try_read() {
+                Ok(t) => VerifSlice {
+                    key,
+                    offset: t.get_offset(),
+                    dirty,
+                    lru,
+                    users,
+                    data: Some(table_bytes(&*t)),
+                },
+                Err(_) => {
+                    *contended = true;
+                    VerifSlice {
+                        key,
+                        offset: None,
+                        dirty,
+                        lru,
+                        users,
+                        data: None,
+                    }
+                }
+            }
+        })
+        .collect();
+    (v, wlen)
+}
+
+impl Qcow2Info {
+    pub fn verif_geometry(&self) -> VerifGeometry {
+        VerifGeometry {
+            block_size_shift: self.block_size_shift,
+            cluster_shift: self.cluster_shift,
+            l2_index_shift: self.l2_index_shift,
+            l2_slice_index_shift: self.l2_slice_index_shift,
+            l2_slice_bits: self.l2_slice_bits,
+            refcount_order: self.refcount_order,
+            rb_slice_bits: self.rb_slice_bits,
+            rb_index_shift: self.rb_index_shift,
+            rb_slice_index_shift: self.rb_slice_index_shift,
+            l2_slice_entries: self.l2_slice_entries,
+            rb_slice_entries: self.rb_slice_entries(),
+            in_cluster_offset_mask: self.in_cluster_offset_mask,
+            l2_index_mask: self.l2_index_mask,
+            rb_index_mask: self.rb_index_mask,
+            l2_cache_cnt: self.l2_cache_cnt,
+            rb_cache_cnt: self.rb_cache_cnt,
+            virtual_size: self.virtual_size,
+            max_l1_entries: self.max_l1_entries(),
+            read_only: self.is_read_only(),
+            has_back_file: self.has_back_file(),
+            is_back_file: self.is_back_file(),
+        }
+    }
+
+    pub fn verif_host_split(&self, host_off: u64) -> VerifHostSplit {
+        let c = HostCluster(host_off);
+        VerifHostSplit {
+            rt_index: c.rt_index(self),
+            rb_index: c.rb_index(self),
+            rb_slice_index: c.rb_slice_index(self),
+            rb_slice_key: c.rb_slice_key(self),
+            rb_slice_off_in_table: c.rb_slice_off_in_table(self),
+            rb_slice_host_start: c.rb_slice_host_start(self),
+            rb_slice_host_end: c.rb_slice_host_end(self),
+            rb_host_start: c.rb_host_start(self),
+            rb_host_end: c.rb_host_end(self),
+        }
+    }
+
+    pub fn verif_cluster_off_from_slice(&self, host_off: u64, idx: usize) -> u64 {
+        HostCluster(host_off).cluster_off_from_slice(self, idx)
+    }
+}
+
+impl<T: Qcow2IoOps> Qcow2Dev<T> {
+    pub async fn verif_allocate_clusters(&self, count: usize) -> Qcow2Result<Option<(u64, usize)>> {
+        self.allocate_clusters(count).await
+    }
+
+    pub async fn verif_free_clusters(&self, host_cluster: u64, count: usize) -> Qcow2Result<()> {
+        self.free_clusters(host_cluster, count).await
+    }
+
+    /// In-RAM refcount of the cluster at `host_off`: `None` when the slice
+    /// holding it is not cached (then the file holds the current value) or
+    /// is write-locked right now. Does not touch any lru stamp.
+    pub fn verif_cached_refcount(&self, host_off: u64) -> Option<u64> {
+        let info = &self.info;
+        let cls = HostCluster(host_off);
+        let e = self.refblock_cache.verif_peek(&cls.rb_slice_key(info))?;
+        let rb = e.value().try_read().ok()?;
+        if !rb.is_update() {
+            return None;
+        }
+        Some(rb.get(cls.rb_slice_index(info)).into_plain())
+    }
+
+    /// the backing device, if one was attached
+    pub fn verif_backing(&self) -> Option<&Qcow2Dev<T>> {
+        self.backing_file.as_deref()
+    }
+
+    /// the backend this device talks to
+    pub fn verif_file(&self) -> &T {
+        &self.file
+    }
+
+    pub fn verif_dump_state(&self) -> VerifState {
+        let mut s = VerifState::default();
+
+        match self.header.try_write() {
+            Ok(mut h) => s.header = h.serialize_to_buf().unwrap_or_default(),
+            Err(_) => s.contended = true,
+        }
+        match self.l1table.try_read() {
+            Ok(t) => {
+                s.l1 = table_bytes(&*t);
+                s.l1_offset = t.get_offset();
+                s.l1_header_entries = t.verif_header_entries();
+                s.l1_dirty_blocks = t.verif_dirty_blocks();
+            }
+            Err(_) => s.contended = true,
+        }
+        match self.reftable.try_read() {
+            Ok(t) => {
+                s.reftable = table_bytes(&*t);
+                s.reftable_offset = t.get_offset();
+                s.reftable_dirty_blocks = t.verif_dirty_blocks();
+            }
+            Err(_) => s.contended = true,
+        }
+        let (v, w) = dump_cache(&self.l2cache, &mut s.contended);
+        s.l2_slices = v;
+        s.l2_wmap_len = w;
+        let (v, w) = dump_cache(&self.refblock_cache, &mut s.contended);
+        s.rb_slices = v;
+        s.rb_wmap_len = w;
+        match self.new_cluster.try_read() {
+            Ok(m) => {
+                let mut v: Vec<(u64, Option<bool>)> = m
+                    .iter()
+                    .map(|(k, l)| (*k, l.try_read().ok().map(|g| *g)))
+                    .collect();
+                v.sort();
+                s.new_clusters = v;
+            }
+            Err(_) => s.contended = true,
+        }
+        s.free_cluster_offset = self.free_cluster_offset.load(Ordering::Relaxed);
+        s.need_flush = self.need_flush_meta();
+        s
+    }
+}
